@@ -40,6 +40,7 @@ type Case struct {
 	// reload family
 	Reloads []ReloadStep `json:"reloads,omitempty"`
 	Started bool         `json:"started,omitempty"` // the manager went through the real Start before the reloads
+	Plus    bool         `json:"plus,omitempty"`    // NGINX Plus manager with its API clients set
 	// api family
 	Version int   `json:"version,omitempty"`
 	Check   *Resp `json:"check,omitempty"`
@@ -53,6 +54,7 @@ type ReloadStep struct {
 	ShellOK bool   `json:"shell_ok"`
 	Script  []Resp `json:"script"`
 	Tail    Resp   `json:"tail"`
+	Endpoints bool `json:"endpoints,omitempty"` // Reload(isEndpointsUpdate=true): the fallback after a refused API push
 }
 
 type WaitObs struct {
@@ -325,11 +327,15 @@ func genReload(r *vh.Rng, id int) Case {
 		ok := !r.Chance(1, 4)
 		class := vh.Pick(r, []string{"early", "early", "never", "late"})
 		script, tail := genScript(r, e, timeout, class)
-		steps = append(steps, ReloadStep{ShellOK: ok, Script: script, Tail: tail})
+		steps = append(steps, ReloadStep{ShellOK: ok, Script: script, Tail: tail, Endpoints: r.Chance(1, 3)})
 	}
 	// half of the managers go through the real Start first (the stand-in binary exits at once, the version
 	// socket serves the initial version 0): the configured timeout must still bound every reload after it
-	return Case{Fam: "reload", ID: id, Class: "seq", TimeoutMs: timeout, Reloads: steps, OpenTracing: r.Chance(1, 3), Started: r.Bool()}
+	c := Case{Fam: "reload", ID: id, Class: "seq", TimeoutMs: timeout, Reloads: steps, OpenTracing: r.Chance(1, 3), Started: r.Bool(), Plus: r.Chance(1, 3)}
+	if c.Plus {
+		c.Started = false // Start on Plus also launches the license reporter, which the harness does not have
+	}
+	return c
 }
 
 func runReload(dir, fakebin string, c *Case) error {
@@ -344,7 +350,24 @@ func runReload(dir, fakebin string, c *Case) error {
 		return err
 	}
 	defer s.close()
-	lm := nginx.VerifNewLocalManager(root, sock, time.Duration(c.TimeoutMs)*time.Millisecond, false)
+	lm := nginx.VerifNewLocalManager(root, sock, time.Duration(c.TimeoutMs)*time.Millisecond, c.Plus)
+	if c.Plus {
+		// the API clients are set, as after start-up on NGINX Plus: a reload is a reload all the same
+		csock, asock := filepath.Join(root, "c.sock"), filepath.Join(root, "a.sock")
+		cs, err := newServer(csock, nil, httpR(200, "", 1))
+		if err != nil {
+			return err
+		}
+		defer cs.close()
+		as, err := newServer(asock, nil, httpR(404, `{"error":{"status":404,"text":"x","code":"UpstreamNotFound"}}`, 0))
+		if err != nil {
+			return err
+		}
+		defer as.close()
+		if err := lm.VerifSetPlus(asock, csock); err != nil {
+			return err
+		}
+	}
 	lm.SetOpenTracing(c.OpenTracing)
 	var obs []ReloadObs
 	failFlag := filepath.Join(fakebin, "fail")
@@ -360,7 +383,8 @@ func runReload(dir, fakebin string, c *Case) error {
 			os.WriteFile(failFlag, []byte("1"), 0o644)
 		}
 		done := make(chan error, 1)
-		go func() { done <- lm.Reload(false) }()
+		ep := st.Endpoints
+		go func() { done <- lm.Reload(ep) }()
 		var err error
 		select {
 		case err = <-done:
